@@ -95,6 +95,34 @@ pub fn gen_spec(rng: &mut Rng, o: &GenOpts) -> (Spec, PatClass) {
     // 256-slot blocks (thresholds on the table size, block eviction with every setting)
     let huge = !o.tiny && o.wide_max >= 300 && rng.chance(1, 24);
     let class = if huge { PatClass::Wide } else { class };
+    // the same set of suffixes under several different prefixes: sibling subtrees with exactly
+    // equal numbers of states (a thousand and more) - ties between subtrees, whatever is compared
+    if !o.tiny && o.wide_max >= 300 && rng.chance(1, 40) {
+        let twins = rng.range(2, 4);
+        let nsuf = rng.range(250, 500);
+        let mut sufs: std::collections::BTreeSet<Vec<u8>> = Default::default();
+        while sufs.len() < nsuf {
+            let n = rng.range(3, 6);
+            let p: Vec<u8> = (0..n).map(|_| b'a' + rng.below(12) as u8).collect();
+            sufs.insert(p);
+        }
+        let mut pats: Vec<Vec<u8>> = vec![];
+        let stem: Vec<u8> = if rng.chance(1, 2) { vec![] } else { vec![b'_'] };
+        for t in 0..twins {
+            for sfx in &sufs {
+                let mut p = stem.clone();
+                p.push(b'P' + t as u8);
+                p.extend_from_slice(sfx);
+                pats.push(p);
+            }
+        }
+        rng.shuffle(&mut pats);
+        let values: Vec<u64> = (0..pats.len() as u64).collect();
+        return (
+            Spec { variant, kind, num_free_blocks: *rng.pick(&NFB_CHOICES), entry: Entry::WithValues, vtype: VType::U32, patterns: pats, values, ctor: false },
+            PatClass::Wide,
+        );
+    }
     // states just below the root with more than 128 outgoing edges and exactly equal fan-out
     // (placement heuristics for wide states, ties between them)
     if !o.tiny && o.wide_max >= 80 && rng.chance(1, 60) {
